@@ -184,6 +184,10 @@ func (r *pqRun) checkAll(m *pqModel, rng *rand.Rand) {
 		q   string
 		set map[uint64]bool
 	}
+	// crossShift: some Shift in the expression moves a column over a shard boundary
+	// (reported under its own signature: the carry into the next shard is a recorded
+	// finding, see known_findings.json, and must not hide other Shift results)
+	crossShift := false
 	leaf := func() expr {
 		if rng.Intn(3) == 0 && len(m.v) > 0 {
 			p := pqVals[rng.Intn(len(pqVals))]
@@ -206,6 +210,17 @@ func (r *pqRun) checkAll(m *pqModel, rng *rand.Rand) {
 	gen = func(d int) expr {
 		if d == 0 || rng.Intn(3) == 0 {
 			return leaf()
+		}
+		if rng.Intn(5) == 0 {
+			a, n := gen(d-1), uint64(1+rng.Intn(2))
+			out := map[uint64]bool{}
+			for c := range a.set {
+				out[c+n] = true
+				if c/pqSW != (c+n)/pqSW {
+					crossShift = true
+				}
+			}
+			return expr{fmt.Sprintf("Shift(%s, n=%d)", a.q, n), out}
 		}
 		a, b := gen(d-1), gen(d-1)
 		out := map[uint64]bool{}
@@ -246,12 +261,39 @@ func (r *pqRun) checkAll(m *pqModel, rng *rand.Rand) {
 			return expr{"Xor(" + a.q + ", " + b.q + ")", out}
 		}
 	}
-	for i := 0; i < 6; i++ {
+	// Shift of every stored row, alone and intersected with another row (the latter is
+	// evaluated shard by shard, where a bit carried over a shard boundary goes missing)
+	for _, row := range pqRows {
+		out, cross := map[uint64]bool{}, false
+		for c := range m.s[row] {
+			out[c+1] = true
+			cross = cross || c/pqSW != (c+1)/pqSW
+		}
+		sig := "shift-row"
+		if cross {
+			sig = "algebra-shift-across-shards"
+		}
+		r.expectCols([]string{"C15"}, sig, fmt.Sprintf("Shift(Row(s=%d), n=1)", row), sortedCols(out))
+		other := pqRows[(int(row)+1)%len(pqRows)]
+		both := map[uint64]bool{}
+		for c := range out {
+			if m.s[other][c] {
+				both[c] = true
+			}
+		}
+		r.expectCols([]string{"C15"}, sig, fmt.Sprintf("Intersect(Shift(Row(s=%d), n=1), Row(s=%d))", row, other), sortedCols(both))
+	}
+	for i := 0; i < 8; i++ {
+		crossShift = false
 		e := gen(3)
-		r.expectCols([]string{"C15"}, "algebra", e.q, sortedCols(e.set))
+		sig, csig := "algebra", "count"
+		if crossShift {
+			sig, csig = "algebra-shift-across-shards", "count-shift-across-shards"
+		}
+		r.expectCols([]string{"C15"}, sig, e.q, sortedCols(e.set))
 		if v, ok := r.query("Count(" + e.q + ")"); ok {
 			if n, _ := v.(uint64); int(n) != len(e.set) {
-				r.fail([]string{"C15"}, "count", fmt.Sprintf("Count(%s) = %v, model %d", e.q, v, len(e.set)))
+				r.fail([]string{"C15"}, csig, fmt.Sprintf("Count(%s) = %v, model %d", e.q, v, len(e.set)))
 			}
 		}
 	}
@@ -646,6 +688,18 @@ func (r *pqRun) checkAll(m *pqModel, rng *rand.Rand) {
 			}
 		}
 	}
+	// a row named twice is still one row with one count
+	if v, ok := r.query("TopN(s, ids=[1,0,1,10,1])"); ok {
+		if ps, isP := v.([]pilosa.Pair); isP {
+			seenID := map[uint64]bool{}
+			for _, p := range ps {
+				if int(p.Count) != len(sortedCols(m.s[p.ID])) || seenID[p.ID] {
+					r.fail([]string{"C12"}, "topn-ids-repeated", fmt.Sprintf("TopN(s, ids=[1,0,1,10,1]) = %v: row %d has %d columns in the model", ps, p.ID, len(sortedCols(m.s[p.ID]))))
+				}
+				seenID[p.ID] = true
+			}
+		}
+	}
 	// ---- time ranges (C18, C19) ----
 	for i := 0; i < 8; i++ {
 		a, b := pqTimes[rng.Intn(len(pqTimes))], pqTimes[rng.Intn(len(pqTimes))]
@@ -667,10 +721,39 @@ func (r *pqRun) checkAll(m *pqModel, rng *rand.Rand) {
 			}
 			r.expectCols([]string{"C18", "C19", "C28"}, "timerange", fmt.Sprintf("Row(t=%d, from=%s, to=%s)", row, pqTS(a), pqTS(b)), sortedCols(want))
 		}
+		// Rows over the same range: the rows with a bit in [a,b), and its limit= prefixes
+		var wantRows []uint64
+		for _, row := range pqRows[:3] {
+			hit := false
+			for _, ts := range m.t[row] {
+				for t0, ok := range ts {
+					hit = hit || (ok && !t0.Before(a) && t0.Before(b))
+				}
+			}
+			if hit {
+				wantRows = append(wantRows, row)
+			}
+		}
+		sort.Slice(wantRows, func(x, y int) bool { return wantRows[x] < wantRows[y] })
+		for _, lim := range []int{0, 1, 2} {
+			q, want := fmt.Sprintf("Rows(t, from=%s, to=%s)", pqTS(a), pqTS(b)), wantRows
+			if lim > 0 {
+				q = fmt.Sprintf("Rows(t, from=%s, to=%s, limit=%d)", pqTS(a), pqTS(b), lim)
+				if len(want) > lim {
+					want = want[:lim]
+				}
+			}
+			if got, ok := getRows(q); ok && !(len(got) == 0 && len(want) == 0) && !reflect.DeepEqual(got, want) {
+				r.fail([]string{"C16", "C18"}, "rows-timerange", fmt.Sprintf("%s = %v, model %v", q, got, want))
+			}
+		}
 	}
 	for _, row := range pqRows[:3] {
 		if r.noStd {
-			break // without a standard view Row(t=r) is decided by the views that exist, not by the model
+			// no write path creates a standard view on a noStandardView field (a Set
+			// without a time stamp is a no-op there, and so is an import without one)
+			r.expectCols([]string{"C28", "C19"}, "nostd-standard", fmt.Sprintf("Row(t=%d)", row), []uint64{})
+			continue
 		}
 		r.expectCols([]string{"C19"}, "time-standard", fmt.Sprintf("Row(t=%d)", row), sortedCols(m.tStd[row]))
 	}
@@ -748,6 +831,30 @@ func (r *pqRun) round(rng *rand.Rand, writes int) {
 	// every round starts with one bulk import of a time stamp before 1970 (negative
 	// UnixNano), the corner of C28 a random draw reaches only now and then
 	timeWrite(pqCols[rng.Intn(len(pqCols))], pqRows[rng.Intn(3)], pqTimes[0], true)
+	// ... and one bulk import without a time stamp: like Set without one it writes the
+	// standard view only, and nothing at all when the field has no standard view
+	{
+		c, row := pqCols[rng.Intn(len(pqCols))], pqRows[rng.Intn(3)]
+		r.seq = append(r.seq, fmt.Sprintf("Import(col %d, t=%d, no time stamp)", c, row))
+		for _, cl := range []test.Cluster{r.c1, r.c3} {
+			if cl == nil {
+				continue
+			}
+			for _, node := range cl {
+				req := &pilosa.ImportRequest{Index: "i", Field: "t", Shard: c / pqSW, RowIDs: []uint64{row}, ColumnIDs: []uint64{c}}
+				if err := node.API.Import(context.Background(), req); err != nil && !strings.Contains(err.Error(), "shard ownership") {
+					r.fail([]string{"C28"}, "import-error", fmt.Sprintf("Import(col %d, t=%d, no time stamp): %v", c, row, err))
+				}
+			}
+		}
+		if !r.noStd {
+			if m.tStd[row] == nil {
+				m.t[row] = map[uint64]map[time.Time]bool{}
+				m.tStd[row] = map[uint64]bool{}
+			}
+			m.tStd[row][c] = true
+		}
+	}
 	for w := 0; w < writes; w++ {
 		c := pqCols[rng.Intn(len(pqCols))]
 		switch rng.Intn(10) {
